@@ -159,7 +159,7 @@ void genFiles(Prng& r, Plan& p, int tier)
 		case 2: p.ops.push_back(op("wr", {path, (int64_t)r.below(2), (int64_t)(1 + r.below(4)), len, (int64_t)(r.next() >> 20), (int64_t)r.below(2)})); break;
 		case 3: p.ops.push_back(op("stream", {path, (int64_t)(r.next() >> 20)})); break;
 		case 4: case 5: p.ops.push_back(op("tput", {path, (int64_t)(1 + r.below(6)), (int64_t)(r.below(4) == 0 ? 2000 : 600), (int64_t)r.below(4), (int64_t)r.below(2), (int64_t)(r.next() >> 20)})); break;
-		case 6: p.ops.push_back(op("tapp", {path, (int64_t)(1 + r.below(3)), (int64_t)(r.below(4) == 0 ? 3000 : 300), (int64_t)r.below(4), (int64_t)(r.next() >> 20), (int64_t)r.below(2)})); break;
+		case 6: p.ops.push_back(op("tapp", {path, (int64_t)(1 + r.below(4)), (int64_t)(r.below(4) == 0 ? 3000 : 300), (int64_t)r.below(4), (int64_t)(r.next() >> 20), (int64_t)r.below(8)})); break; // last: 1 long-lived appender, 2 reset by assignment, 4 mixed with one-shot appenders
 		case 7: p.ops.push_back(op("tprintf", {path, (int64_t)(1 + r.below(5)), (int64_t)(r.next() >> 20)})); break;
 		case 8: p.ops.push_back(op("copy", {path, (int64_t)r.below(NPATH), (int64_t)r.below(2)})); break;
 		case 9: p.ops.push_back(op("move", {path, (int64_t)r.below(NPATH), (int64_t)r.below(2)})); break;
@@ -512,15 +512,27 @@ void runFiles(const Plan& p)
 				std::string t = textOf((uint64_t)o.arg(4) + (uint64_t)k, 1, (int)std::max<int64_t>(0, std::min<int64_t>(2000, o.arg(2))), (int)(std::abs(o.arg(3)) % 4), true, chunk);
 				bool had = m.files.count(path) > 0;
 				std::string cur = had ? m.files[path] : std::string();
-				if (shared)
+				if (shared && (k % 2 == 0 || !(o.arg(5) & 4)))
 				{
 					shared->append(asl::String(t.c_str()));
 					shared->flush(); // "written" means after close(), flush() or destruction of the writing object
 				}
-				else
+				else // one-shot appender (also in between the appends of the long-lived one: two writers in append mode on one path)
 					asl::TextFile(path.c_str()).append(asl::String(t.c_str()));
 				settle(path, cur + t, cur, had, true, false);
 				armed = false;
+			}
+			if (shared && (o.arg(5) & 2) && !faulty)
+			{
+				// one more append that stays in the object's buffer, then the object is reset by assignment:
+				// what it had written must be in the file (assignment closes the stream it held)
+				std::string t = textOf((uint64_t)o.arg(4) + 77, 1, 40, 0, true, chunk);
+				bool had = m.files.count(path) > 0;
+				std::string cur = had ? m.files[path] : std::string();
+				bool wasOpen = shared->append(asl::String(t.c_str()));
+				*shared = asl::TextFile();
+				if (wasOpen)
+					settle(path, cur + t, cur, had, true, false);
 			}
 			delete shared;
 			m.bomText.erase(path);
